@@ -2,6 +2,7 @@
 from __future__ import annotations
 
 import copy
+import json
 import itertools
 
 from ..core import Batch, cN, cZ, cbool, clist, cnat, copt, cpair
@@ -583,9 +584,12 @@ Definition rt_eqb (a : res (list nat * list (list triple * res (option (list N))
 
     def impl_st(c):
         trees = [to_ete(t) for t in c["trees"]]
+        # the functions take any iterable of trees: a list, a tuple, or a one-shot iterator / generator
+        how = len(json.dumps(c["trees"])) % 4
+        give = [lambda: trees, lambda: tuple(trees), lambda: iter(trees), lambda: (t for t in trees)][how]
         try:
-            st = T.supertree(trees)
-            al = T.all_supertrees(trees)
+            st = T.supertree(give())
+            al = T.all_supertrees(give())
         except Exception as e:  # noqa: BLE001
             return {"err": exc_name(e)}
         res = {"found": st is not None, "displays_all": True, "n_all": len(al), "all_display": True}
